@@ -36,7 +36,8 @@ func init() {
 		Rule: "cases: rec = tbls.Recover on a list of raw entries for a dealt (t,n) key: EVERY subset of valid shares for all 1<=t<=n<=8 (exhaustive), " +
 			"permutations, multisets (exact duplicates), re-encodings of the same share (trailing bytes), junk catalogue (len 0,1,2,65,66+k, off-curve, identity, " +
 			"x+p / y+p coordinates, wrong index, index>=n incl. a genuine evaluation there, other message, foreign polynomial), messages empty/1B/1MiB, secrets 0,1,r-1,random, " +
-			"degenerate polynomials; sign/blssign = the signing side; non-trivial = anything but the first t shares in index order; distinct = distinct case line",
+			"degenerate polynomials; large groups n in {65,100,255,256,257,300} with t<=4 and members at indices 63..66, 254..257, n-1 replayed under several encodings; " +
+			"hist = a sequence of sign/verify/recover calls in one process sharing a message buffer that is overwritten in place between calls; sign/blssign = the signing side; non-trivial = anything but the first t shares in index order; distinct = distinct case line",
 		Gen:        gen,
 		Exec:       Exec,
 		Exhaustive: func(tier string) bool { return true },
@@ -338,6 +339,9 @@ func Prefetch(lines []string, exec func(string) h.Result, memo *sync.Map) {
 		}()
 	}
 	for _, l := range lines {
+		if strings.HasPrefix(l, "hist ") {
+			continue // run alone, in the sequential loop: the calls of a history must not interleave with others
+		}
 		ch <- l
 	}
 	close(ch)
@@ -362,6 +366,8 @@ func Exec(line string) h.Result {
 func ExecLine(line string) (res h.Result) {
 	w := strings.Fields(line)
 	switch w[0] {
+	case "hist":
+		return execHist(w)
 	case "rec": // rec <t> <n> <h> <pubcoeffs> <msg> <entries>
 		t, n, hs, coeffs, msg, es := h.Atoi(w[1]), h.Atoi(w[2]), h.BigDec(w[3]), CSV(w[4]), Msg(w[5]), Entries(w[6])
 		if HashScalar(msg).Cmp(hs) != 0 {
@@ -650,6 +656,22 @@ func gen(tier string, rng *h.Rng, emit0 func(string)) {
 				}
 			}
 		}
+	}
+	// 3b. large groups with a small threshold: members around index 64 and 256, re-encoded replays
+	nlg := 60
+	if thorough {
+		nlg = 600
+	}
+	for k := 0; k < nlg; k++ {
+		emit(LargeGroup(rng, k%3 != 0))
+	}
+	// 3c. histories: calls that share a mutable message buffer
+	nh := 24
+	if thorough {
+		nh = 200
+	}
+	for k := 0; k < nh; k++ {
+		emit(History(rng, k))
 	}
 	// 4. the signing side
 	nsig := 40
